@@ -58,33 +58,24 @@ theorem decodeField_is_dispatch (st : Impl.DecState) (b0 : UInt8) (rest : Bytes)
       else if seen then .err .decoding
       else
         (match mSizeUpdate st (b0 :: rest) with
-         | .ok (c, st') => .ok (none, c, st') | .err e => .err e | .esc x => .esc x) := by
-  unfold Impl.decodeField mIndexed mSizeUpdate
-  simp only []
-  split
-  · cases Impl.decodeInt Gen.intCap (b0 :: rest) 7 with
-    | err e => rfl
-    | esc x => rfl
-    | ok r =>
-      obtain ⟨i, c⟩ := r
-      simp only [obind_ok]
-      cases st.table.getByIndex i <;> rfl
-  · split
-    · cases Impl.decodeLiteral Gen.intCap true st.table (b0 :: rest) (decide (b0.toNat &&& 0x40 ≠ 0)) with
-      | err e => rfl
-      | esc x => rfl
-      | ok r => obtain ⟨h, c, t'⟩ := r; rfl
-    · split
-      · rfl
-      · cases Impl.decodeInt Gen.intCap (b0 :: rest) 5 with
-        | err e => rfl
-        | esc x => rfl
-        | ok r =>
-          obtain ⟨n, c⟩ := r
-          simp only [obind_ok]
-          split
-          · rfl
-          · cases st.table.setMaxsize n <;> rfl
+         | .ok (c, st') => .ok (none, c, st') | .err e => .err e | .esc x => .esc x) :=
+  SrcTie.decodeField_is_dispatch st b0 rest seen
+
+/-- **`Decoder.decode(data, raw)`** — the whole method: translated source = `Impl.Cur.decode` (the model every decoder
+theorem of C02, C04–C08, C15, C17 is stated about). `AgreeRun`: a returned list ⇒ the same fields in the same order with
+the same classes *and* the same decoder afterwards; a documented error ⇒ the same class *and* the same decoder afterwards
+(what a refused block leaves behind); an escape ⇒ the same class (C04 proves there is none). For every state whose table
+satisfies the invariant (every reachable one: `Props.decReach_inv`), whose list limit is printable, every octet string,
+both modes, with enough fuel for the `while` loops. -/
+theorem decode_is_model (st : Impl.DecState) (data : Bytes) (raw : Bool) (hinv : Impl.Inv st.table) (hlim : st.listLimit < 10 ^ 4300) :
+    ∃ f0, ∀ fuel, fuel ≥ f0 → AgreeRun (Src.Decoder.decode fuel (absD st) data raw) (Impl.Cur.decode st data raw) :=
+  ⟨3 * data.length + st.table.entries.length + 4, fun fuel hf => decode_agree st data raw hinv hlim fuel hf⟩
+
+/-- non-vacuity: RFC 7541 C.3.1 through the translated source, from a fresh decoder -/
+example : (Src.Decoder.decode 100 (Src.Decoder.new 65536)
+      [0x82, 0x86, 0x84, 0x41, 0x0f, 0x77, 0x77, 0x77, 0x2e, 0x65, 0x78, 0x61, 0x6d, 0x70, 0x6c, 0x65, 0x2e, 0x63, 0x6f, 0x6d] true).toOption.map
+      (fun r => (r.2.length, r.1.f_header_table.f_current_size)) = some (4, 57) := by
+  decide +kernel
 
 /-- a fresh object is the model's fresh decoder -/
 theorem new_is_model (limit : Nat) : Src.Decoder.new (limit : Int) = absD { listLimit := limit } := by
